@@ -450,8 +450,13 @@ def const(node, env=None):
 
 
 def fold_block(stmts, env):
-    """Fold a straight-line statement list (assignments to names, if/else over foldable tests, raise) for concrete values of
-    the names in env (modified in place).  Returns ('raise', text of the raised expression) or ('fall', None)."""
+    """Fold a statement list for concrete values of the names in env (modified in place): assignments (names, tuples, subscripts of
+    containers the fold owns, self attributes), augmented assignments, if, while / for with break / continue / else, with (the context
+    manager is ignored), try (handlers for what the evaluator itself can meet: struct.error, KeyError, IndexError, ValueError),
+    assert, del of slices, local function definitions, calls that the caller of the fold models (env['__calls__'] by callee text,
+    env['__funcs__'] by name, FoldObject values) and logging calls (skipped).  Anything else raises NotConst.
+    Returns ('raise', text of the raised expression) | ('return', value) | ('fall', None) (| 'break' / 'continue' inside loops).
+    The statements are parsed source of the tree under analysis; nothing of the repository is imported or executed."""
     for st in stmts:
         if isinstance(st, ast.Expr) and (isinstance(st.value, ast.Constant) or (isinstance(st.value, ast.Call) and norm(st.value.func).startswith(('log.', 'self.log.')))):
             continue
